@@ -24,6 +24,7 @@
 
 import datetime
 import time
+from collections.abc import Mapping
 from functools import cached_property
 from typing import Any
 from typing import Dict
@@ -83,6 +84,9 @@ class Row(tuple):
         Returns:
             A new Row instance.
         """
+        if isinstance(data, Mapping) and not isinstance(data, dict):
+            # other mappings carry fields by name too, iterating them would store the keys
+            data = dict(data)
         if isinstance(data, dict):
             # data = tuple([data.get(field) for field in cls._fields])
             # previous comments on the below line suggested it had a bug, but didn't
